@@ -7,13 +7,14 @@
 // dereference the null Storage pointer of a storage-less active source (Array::link, GradientIndex::set).
 // OP GRAMMAR (handles are non-negative integers chosen by the caller; `:` separates a value list)
 //   cfg                                   new Stack, empty pools, event log installed            -> cfg
-//   av <h> [col] <d0> [d1 [d2]] : v..     new active Array (rank = #dims), values in index order  -> ok <geom>
-//   pv <h> [col] <d0> [d1 [d2]] : v..     new passive Array
+//   av <h> [col] <d0> [d1 [d2 [d3]]] : v..  new active Array (rank = #dims <= 4), values in index order -> ok <geom>
+//   pv <h> [col] <d0> [d1 [d2 [d3]]] : v..  new passive Array
 //   as <h> <v>                            new adouble                                              -> ok <geom>
 //   iv <h> : i0 i1 ..                     new intVector                                            -> ok iv=..
 //   f4 <h> : v0..v3    f23 <h> : v0..v5   new active FixedArray<double,true,4> / <double,true,2,3>
-//   vw <h> <src> <ix> [<ix> [<ix>]]       view; <ix> = i<k> (scalar index) | s<b>:<e>:<st> (stride(b,e,st), st of either sign)
-//   vT <h> <src>                          src.T() (rank 2)        vperm <h> <src> <p0> <p1> <p2>   src.permute (rank 3)
+//   vw <h> <src> <ix> [<ix> [<ix> [<ix>]]] view; <ix> = i<k> (scalar index) | s<b>:<e>:<st> (stride(b,e,st), st of either sign)
+//                                         (rank 4: at most one scalar index)
+//   vT <h> <src>                          src.T() (rank 2)        vperm <h> <src> <p0> <p1> <p2> [<p3>]   src.permute (rank 3, 4)
 //   vdiag <h> <src> <k>                   src.diag_vector(k)      vsoft <h> <src>   src.soft_link()   vlink <h> <src>  (shallow copy)
 //   nr                                    new_recording                                            -> ok
 //   <statement kind> <args>               see drv_arrayad_s1..s8.cpp                               -> S <status> | ... (below)
@@ -73,7 +74,8 @@ template <int R, bool A>
 static double elem_value(Array<R, double, A>& a, const ExpressionSize<R>& ix) {
   if constexpr (R == 1) return val_of(a(ix[0]));
   else if constexpr (R == 2) return val_of(a(ix[0], ix[1]));
-  else return val_of(a(ix[0], ix[1], ix[2]));
+  else if constexpr (R == 3) return val_of(a(ix[0], ix[1], ix[2]));
+  else return val_of(a(ix[0], ix[1], ix[2], ix[3]));
 }
 
 template <int R, bool A>
@@ -111,7 +113,8 @@ static std::string geom(long h) {
     case K_ARR:
       if (o.rank == 1) { if (o.active) geom_arr(os, as<1, true>(o), o); else geom_arr(os, as<1, false>(o), o); }
       else if (o.rank == 2) { if (o.active) geom_arr(os, as<2, true>(o), o); else geom_arr(os, as<2, false>(o), o); }
-      else { if (o.active) geom_arr(os, as<3, true>(o), o); else geom_arr(os, as<3, false>(o), o); }
+      else if (o.rank == 3) { if (o.active) geom_arr(os, as<3, true>(o), o); else geom_arr(os, as<3, false>(o), o); }
+      else { if (o.active) geom_arr(os, as<4, true>(o), o); else geom_arr(os, as<4, false>(o), o); }
       break;
     case K_FA4: {
       FA4& f = asF4(o);
@@ -147,7 +150,8 @@ static void refresh(long h) {
     n = a.storage()->n_allocated(); g = A ? (long)a.storage()->gradient_index() : -1; } }
   if (o.rank == 1) { if (o.active) AAD_REF(1, true) else AAD_REF(1, false) }
   else if (o.rank == 2) { if (o.active) AAD_REF(2, true) else AAD_REF(2, false) }
-  else { if (o.active) AAD_REF(3, true) else AAD_REF(3, false) }
+  else if (o.rank == 3) { if (o.active) AAD_REF(3, true) else AAD_REF(3, false) }
+  else { if (o.active) AAD_REF(4, true) else AAD_REF(4, false) }
 #undef AAD_REF
   if (owns && d != r.base) { o.root = h; o.base = d; o.n = n; o.gbase = g; }
 }
@@ -207,7 +211,8 @@ static void destroy(Obj& o) {
     case K_ARR:
       if (o.rank == 1) { if (o.active) delete &as<1, true>(o); else delete &as<1, false>(o); }
       else if (o.rank == 2) { if (o.active) delete &as<2, true>(o); else delete &as<2, false>(o); }
-      else { if (o.active) delete &as<3, true>(o); else delete &as<3, false>(o); }
+      else if (o.rank == 3) { if (o.active) delete &as<3, true>(o); else delete &as<3, false>(o); }
+      else { if (o.active) delete &as<4, true>(o); else delete &as<4, false>(o); }
       break;
     case K_FA4: delete &asF4(o); break;
     case K_FA23: delete &asF23(o); break;
@@ -281,6 +286,17 @@ static bool make_view(long h, Obj& src, const std::vector<Ix>& ix) {
     }
     return false;
   }
+  if (R == 4) {
+    Array<4, double, A>& s = as<4, A>(src);
+    if (ns == 0) { Array<4, double, A>* v = new Array<4, double, A>(s(ST(0), ST(1), ST(2), ST(3))); add_view<4, A>(h, src, v); return true; }
+    if (ns == 1) {
+      Array<3, double, A>* v = ix[0].scalar ? new Array<3, double, A>(s(ix[0].k, ST(1), ST(2), ST(3)))
+        : ix[1].scalar ? new Array<3, double, A>(s(ST(0), ix[1].k, ST(2), ST(3)))
+        : ix[2].scalar ? new Array<3, double, A>(s(ST(0), ST(1), ix[2].k, ST(3))) : new Array<3, double, A>(s(ST(0), ST(1), ST(2), ix[3].k));
+      add_view<3, A>(h, src, v); return true;
+    }
+    return false;
+  }
   Array<3, double, A>& s = as<3, A>(src);
   if (ns == 0) { Array<3, double, A>* v = new Array<3, double, A>(s(ST(0), ST(1), ST(2))); add_view<3, A>(h, src, v); return true; }
   if (ns == 1) {
@@ -304,6 +320,10 @@ static bool other_view(const Words& w, long h, Obj& src) {
     Array<3, double, A>* v = new Array<3, double, A>(as<3, A>(src).permute(atoi(w[3].c_str()), atoi(w[4].c_str()), atoi(w[5].c_str())));
     add_view<3, A>(h, src, v); return true;
   }
+  if (w[0] == "vperm" && src.rank == 4 && w.size() == 7) {
+    Array<4, double, A>* v = new Array<4, double, A>(as<4, A>(src).permute(atoi(w[3].c_str()), atoi(w[4].c_str()), atoi(w[5].c_str()), atoi(w[6].c_str())));
+    add_view<4, A>(h, src, v); return true;
+  }
   if (w[0] == "vdiag" && src.rank == 2 && w.size() == 4) {
     Array<1, double, A>* v = new Array<1, double, A>(as<2, A>(src).diag_vector(atoi(w[3].c_str())));
     add_view<1, A>(h, src, v); return true;
@@ -312,7 +332,8 @@ static bool other_view(const Words& w, long h, Obj& src) {
     bool soft = w[0] == "vsoft";
     if (src.rank == 1) { Array<1, double, A>* v = soft ? new Array<1, double, A>(as<1, A>(src).soft_link()) : new Array<1, double, A>(as<1, A>(src)); add_view<1, A>(h, src, v); }
     else if (src.rank == 2) { Array<2, double, A>* v = soft ? new Array<2, double, A>(as<2, A>(src).soft_link()) : new Array<2, double, A>(as<2, A>(src)); add_view<2, A>(h, src, v); }
-    else { Array<3, double, A>* v = soft ? new Array<3, double, A>(as<3, A>(src).soft_link()) : new Array<3, double, A>(as<3, A>(src)); add_view<3, A>(h, src, v); }
+    else if (src.rank == 3) { Array<3, double, A>* v = soft ? new Array<3, double, A>(as<3, A>(src).soft_link()) : new Array<3, double, A>(as<3, A>(src)); add_view<3, A>(h, src, v); }
+    else { Array<4, double, A>* v = soft ? new Array<4, double, A>(as<4, A>(src).soft_link()) : new Array<4, double, A>(as<4, A>(src)); add_view<4, A>(h, src, v); }
     return true;
   }
   return false;
@@ -354,6 +375,7 @@ int main() {
         if (d.size() == 1) ok = act ? create<1, true>(h, false, d, v) : create<1, false>(h, false, d, v);
         else if (d.size() == 2) ok = act ? create<2, true>(h, col, d, v) : create<2, false>(h, col, d, v);
         else if (d.size() == 3) ok = act ? create<3, true>(h, col, d, v) : create<3, false>(h, col, d, v);
+        else if (d.size() == 4) ok = act ? create<4, true>(h, col, d, v) : create<4, false>(h, col, d, v);
         if (ok) std::cout << "ok " << geom(h) << "\n"; else std::cout << "bad-op\n";
       } else if (w[0] == "as" && w.size() == 3 && !get(w[1])) {
         long h = atol(w[1].c_str());
@@ -424,7 +446,7 @@ int main() {
             if (!o || !o->active) { ok = false; break; }
 #define AAD_REG(X) { if (pass) st->dependent(X); else st->independent(X); }
             switch (o->kind) {
-              case K_ARR: if (o->rank == 1) AAD_REG((as<1, true>(*o))) else if (o->rank == 2) AAD_REG((as<2, true>(*o))) else AAD_REG((as<3, true>(*o))) break;
+              case K_ARR: if (o->rank == 1) AAD_REG((as<1, true>(*o))) else if (o->rank == 2) AAD_REG((as<2, true>(*o))) else if (o->rank == 3) AAD_REG((as<3, true>(*o))) else AAD_REG((as<4, true>(*o))) break;
               case K_FA4: AAD_REG(asF4(*o)) break;
               case K_FA23: AAD_REG(asF23(*o)) break;
               case K_SCAL: AAD_REG(asS(*o)) break;
@@ -445,7 +467,8 @@ int main() {
         std::string status = "ok";
         int r = 0;
         try {
-          r = exec_s1(w, c);
+          r = exec_s9(w, c);            // rank-4 statements (same op words as the rank 1..3 menu): first
+          if (r == 0) r = exec_s1(w, c);
           if (r == 0) r = exec_s2(w, c);
           if (r == 0) r = exec_s3(w, c);
           if (r == 0) r = exec_s4(w, c);
